@@ -1,5 +1,5 @@
 SPECIFICATION Spec
-CONSTANTS PairSrc = "all" CtxU = "ops4" MaxFlow = 3 KeyU = "six" Writ = "all"
+CONSTANTS PairSrc = "all" CtxU = "ops4" MaxFlow = 3 KeyU = "six" Writ = "all" NObj = 0
 INVARIANT IsPartition
 INVARIANT SnapshotsRight
 PROPERTY ResetEmpties
